@@ -93,13 +93,11 @@ class C01(vlib.Driver):
             for share in shares:
                 cases.append({"algo": algo, "family": "vector", "share": share, "netcfg": "partial", "seed": 1, "pop": 2,
                               "ops": [["learn", 0, 1], ["learn", 0, 2], ["score", 0, 3], ["clone", 0, None],
-                                      ["act", 0, 5], ["act", 2, 5, 0], ["learn", 0, 3], ["learn", 2, 3, 0], ["clone", 2, 7], ["learn", 3, 4], ["score", 3, 1],
-                                      ["learn", 1, 5], ["mutate", 2, "param", 6], ["learn", 0, 7]]})
-                cases.append({"algo": algo, "family": "vector", "share": share, "netcfg": "partial", "seed": 2, "pop": 2,
-                              "ops": [["clone", 0, None], ["act", 0, 5], ["act", 2, 5, 0], ["learn", 0, 3], ["learn", 2, 3, 0], ["mutate", 1, "arch", 5],
-                                      ["clone", 1, 9], ["learn", 1, 8], ["learn", 3, 8, 1], ["score", 0, 3], ["score", 1, 9],
-                                      ["score", 2, 4], ["score", 3, 1], ["select", [1], True],
-                                      ["learn", 0, 1], ["learn", 1, 2], ["learn", 2, 3]]})
+                                      ["act", 0, 5], ["act", 2, 5, 0], ["learn", 0, 3], ["learn", 2, 3, 0],
+                                      ["mutate", 1, "arch", 5], ["clone", 1, 9], ["learn", 1, 8], ["learn", 3, 8, 1],
+                                      ["mutate", 2, "param", 6], ["score", 0, 3], ["score", 1, 9], ["score", 2, 4],
+                                      ["score", 3, 1], ["select", [1], True], ["learn", 0, 1], ["learn", 1, 2],
+                                      ["learn", 2, 3]]})
         if tier == "quick":
             for algo in algos:
                 add(algo, "vector", False, rng.choice(["partial", "full", "none"]), 6, rng.randrange(100))
@@ -205,15 +203,17 @@ class C01(vlib.Driver):
                 label = rec["label"]
                 a = after[i]["struct"]
                 evals = [g["eval"] for g in reg["groups"]]
-                shapes = "; ".join("mkShape {} {} {}%nat {}%nat {}%nat {}%nat {}%nat".format(
+                shapes = "; ".join("mkShape {} {} {}%nat {}%nat {}%nat {}%nat {}%nat {}%nat".format(
                     tab.name(n), tab.arch(a["nets"][n]["arch"]), a["nets"][n]["enc"], a["nets"][n]["head"],
-                    a["nets"][n]["henc"], a["nets"][n]["const"], a["nets"][n]["cfg"]) for n in evals)
-                if kind == "none" or label in (None, "None"):
+                    a["nets"][n]["henc"], a["nets"][n]["const"], a["nets"][n]["cfg"], a["nets"][n]["buf"]) for n in evals)
+                if kind == "act":
+                    # NB activation_mutation touches the networks and re-creates the optimizers even when it ends up
+                    # with the label "None" (no activation to mutate); the skip for policy-gradient algorithms is in the model
+                    mk = "MAct"
+                elif kind == "none" or label in (None, "None"):
                     mk = "MNone"
                 elif kind == "arch":
                     mk = "MArch"
-                elif kind == "act":
-                    mk = "MAct"
                 elif kind == "param":
                     mk = "MParam"
                 else:
@@ -294,6 +294,8 @@ class C01(vlib.Driver):
                     if not unchanged(rest[j], after[j], j, what):
                         break
             shared_ptrs(after, what)
+            if len(out) > 8:
+                break
             if k == "act" and rec.get("pair"):
                 p, c = rec["pair"]
                 if self._policy_equal(states[t - 1][p], states[t - 1][c], reg) and recs[t - 1].get("action") != rec.get("action"):
@@ -312,8 +314,6 @@ class C01(vlib.Driver):
                         out.append(Violation("behaviour", sig("update", diff[0][1] if diff else "loss"),
                                              f"{what}: parent #{p} and its value-identical clone #{c} computed different updates from the same batch: "
                                              f"losses {lp} vs {lc}; differing slots {[d[0] for d in diff[:6]]}"))
-            if out:
-                break
         return out
 
     @staticmethod
